@@ -254,6 +254,13 @@ Proof. vm_compute. split; reflexivity. Qed.
      grid_defaults_of m     m with ymin / ymax defaulting to 0.0
      ops_spec pl            the probe motions for a probe_location mapping pl
      opt_wall_spec o n w    w is None when o is None, else the wall built from the mapping o
+   and of Model/ConfLoad.v:
+     registered k           the probe library asked for key k: Some true = registered, Some false =
+                            not registered (KeyError), None = k is not hashable (TypeError); a
+                            parameter, like the questions about leaves
+     bget l i               entry i of a stored corner vector after numpy broadcasting: its single
+                            value when it has exactly one, nth i l 0 otherwise
+     time_outcome           TimeAxis (start, step, num) | StepNaN start (= Time(start, nan, 1)) | TimeRejected
    All theorems are axiom-free. *)
 From Arim Require Import Model.ConfLoad Proofs.ConfLoadProofs Proofs.ConfLoadBrainProofs.
 
@@ -378,13 +385,22 @@ Proof. exact exam_dispatch_spec. Qed.
 (* ---- probe_from_conf ---------------------------------------------------- *)
 (* where the probe comes from: both keys -> rejected (by AttributeError: see Model/ConfLoad.v),
    probe_key -> the library entry under that key, else make_matrix_probe( **conf["probe"]) with
-   the whole mapping, whose keys must bind to the signature *)
-Theorem conf_probe_source : forall (L : Type) (conf : items (cfg L)),
-  probe_source L conf =
+   the whole mapping, whose keys must bind to the signature.
+   [repaired statement: the probe library is now the parameter `registered` (Some true = the key
+   is registered, Some false = it is not: KeyError, None = the key is not hashable: TypeError);
+   before, the model answered Ok (SrcLibrary k) for EVERY key k, which the library does only for
+   a registered one] *)
+Theorem conf_probe_source : forall (L : Type) (registered : cfg L -> option bool) (conf : items (cfg L)),
+  probe_source L registered conf =
   match probe_dispatch conf with
   | PsError => Err EAttr
   | PsLibrary => match lookup "probe_key" conf with
-                 | Some k => Ok (SrcLibrary k) | None => Err EKey end
+                 | Some k => match registered k with
+                             | Some true => Ok (SrcLibrary k)
+                             | Some false => Err EKey
+                             | None => Err EType
+                             end
+                 | None => Err EKey end
   | PsMatrix => match lookup "probe" conf with
                 | Some (Leaf _) => Err EType
                 | Some (Map kw) => if sig_ok matrix_required matrix_params kw
@@ -393,6 +409,26 @@ Theorem conf_probe_source : forall (L : Type) (conf : items (cfg L)),
                 end
   end.
 Proof. exact probe_source_spec. Qed.
+
+(* a probe comes from the library exactly when its key is the value under "probe_key", that key is
+   registered and there is no "probe" entry (new with the repair) *)
+Theorem conf_probe_library_registered : forall (L : Type) (registered : cfg L -> option bool)
+    (conf : items (cfg L)) (k : cfg L),
+  probe_source L registered conf = Ok (SrcLibrary k) <->
+  lookup "probe_key" conf = Some k /\ has "probe" conf = false /\ registered k = Some true.
+Proof. exact probe_source_library. Qed.
+
+(* an unregistered key: KeyError; an unhashable key (a sequence, a mapping): TypeError (new with
+   the repair) *)
+Theorem conf_probe_key_unregistered : forall (L : Type) (registered : cfg L -> option bool)
+    (conf : items (cfg L)) (k : cfg L),
+  lookup "probe_key" conf = Some k -> has "probe" conf = false ->
+  probe_source L registered conf = match registered k with
+                                   | Some true => Ok (SrcLibrary k)
+                                   | Some false => Err EKey
+                                   | None => Err EType
+                                   end.
+Proof. exact probe_source_unregistered. Qed.
 
 (* the motions applied for a probe_location mapping: the PRESENCE of a key decides (a value 0
    or null still counts), the value passed is the one under that key, the order is fixed:
@@ -416,9 +452,9 @@ Proof. exact probe_location_ops_leaf. Qed.
 
 (* the whole function; with apply_probe_location=False conf["probe_location"] is not read *)
 Theorem conf_probe_from_conf : forall (L : Type) (leaf_has : L -> string -> option bool)
-    (conf : items (cfg L)) (apply : bool),
-  probe_from_conf L leaf_has conf apply =
-  match probe_source L conf with
+    (registered : cfg L -> option bool) (conf : items (cfg L)) (apply : bool),
+  probe_from_conf L leaf_has registered conf apply =
+  match probe_source L registered conf with
   | Ok src => if apply
               then match probe_location_ops L leaf_has conf with
                    | Ok ops => Ok (mkPlan src ops) | Err e => Err e end
@@ -504,14 +540,14 @@ Proof. exact frame_source_spec. Qed.
    conf exactly when the switch is on, the file's one otherwise; the delay is frame.instrument_delay
    (absent or null: none) *)
 Theorem conf_frame_switches : forall (L : Type) (is_none is_float : L -> bool)
-    (leaf_has : L -> string -> option bool) (known_dataset : cfg L -> bool)
+    (leaf_has : L -> string -> option bool) (registered : cfg L -> option bool) (known_dataset : cfg L -> bool)
     (load_expdata : frame_src L -> res unit) (conf : items (cfg L)) (up ue : bool) (fp : frame_plan L),
-  frame_from_conf L is_none is_float leaf_has known_dataset load_expdata conf up ue = Ok fp ->
+  frame_from_conf L is_none is_float leaf_has registered known_dataset load_expdata conf up ue = Ok fp ->
   exists f : items (cfg L),
     frame_source L known_dataset conf = Ok (fp_src fp, f) /\
     load_expdata (fp_src fp) = Ok tt /\
     fp_delay fp = get_not_none L is_none "instrument_delay" f /\
-    (if up then exists p, probe_from_conf L leaf_has conf true = Ok p /\ fp_probe fp = Some p
+    (if up then exists p, probe_from_conf L leaf_has registered conf true = Ok p /\ fp_probe fp = Some p
      else fp_probe fp = None) /\
     (if ue then exists e, examination_object_from_conf L is_none is_float conf = Ok e /\ fp_exam fp = Some e
      else fp_exam fp = None).
@@ -519,54 +555,74 @@ Proof. exact frame_from_conf_Ok. Qed.
 
 (* with both switches off nothing but conf["frame"] is read *)
 Theorem conf_frame_switches_off : forall (L : Type) (is_none is_float : L -> bool)
-    (leaf_has : L -> string -> option bool) (known_dataset : cfg L -> bool)
+    (leaf_has : L -> string -> option bool) (registered : cfg L -> option bool) (known_dataset : cfg L -> bool)
     (load_expdata : frame_src L -> res unit) (conf conf' : items (cfg L)),
   lookup "frame" conf = lookup "frame" conf' ->
-  frame_from_conf L is_none is_float leaf_has known_dataset load_expdata conf false false =
-  frame_from_conf L is_none is_float leaf_has known_dataset load_expdata conf' false false.
+  frame_from_conf L is_none is_float leaf_has registered known_dataset load_expdata conf false false =
+  frame_from_conf L is_none is_float leaf_has registered known_dataset load_expdata conf' false false.
 Proof. exact frame_from_conf_switches_off. Qed.
 
 (* ---- the order of the keys of the root mapping is irrelevant -------------- *)
 Theorem conf_builders_depend_on_lookups : forall (L : Type) (is_none is_float : L -> bool)
-    (leaf_has : L -> string -> option bool) (zero : L) (known_dataset : cfg L -> bool)
+    (leaf_has : L -> string -> option bool) (zero : L) (registered : cfg L -> option bool) (known_dataset : cfg L -> bool)
     (load_expdata : frame_src L -> res unit) (conf conf' : items (cfg L)),
   (forall k : string, lookup k conf = lookup k conf') ->
   examination_object_from_conf L is_none is_float conf = examination_object_from_conf L is_none is_float conf' /\
-  (forall apply, probe_from_conf L leaf_has conf apply = probe_from_conf L leaf_has conf' apply) /\
+  (forall apply, probe_from_conf L leaf_has registered conf apply = probe_from_conf L leaf_has registered conf' apply) /\
   grid_from_conf L zero conf = grid_from_conf L zero conf' /\
-  (forall up ue, frame_from_conf L is_none is_float leaf_has known_dataset load_expdata conf up ue =
-                 frame_from_conf L is_none is_float leaf_has known_dataset load_expdata conf' up ue).
+  (forall up ue, frame_from_conf L is_none is_float leaf_has registered known_dataset load_expdata conf up ue =
+                 frame_from_conf L is_none is_float leaf_has registered known_dataset load_expdata conf' up ue).
 Proof. exact root_lookup_ext. Qed.
 
 Theorem conf_builders_root_key_order : forall (L : Type) (is_none is_float : L -> bool)
-    (leaf_has : L -> string -> option bool) (zero : L) (known_dataset : cfg L -> bool)
+    (leaf_has : L -> string -> option bool) (zero : L) (registered : cfg L -> option bool) (known_dataset : cfg L -> bool)
     (load_expdata : frame_src L -> res unit) (conf conf' : items (cfg L)),
   NoDup (keys conf) -> Permutation conf conf' ->
   examination_object_from_conf L is_none is_float conf = examination_object_from_conf L is_none is_float conf' /\
-  (forall apply, probe_from_conf L leaf_has conf apply = probe_from_conf L leaf_has conf' apply) /\
+  (forall apply, probe_from_conf L leaf_has registered conf apply = probe_from_conf L leaf_has registered conf' apply) /\
   grid_from_conf L zero conf = grid_from_conf L zero conf' /\
-  (forall up ue, frame_from_conf L is_none is_float leaf_has known_dataset load_expdata conf up ue =
-                 frame_from_conf L is_none is_float leaf_has known_dataset load_expdata conf' up ue).
+  (forall up ue, frame_from_conf L is_none is_float leaf_has registered known_dataset load_expdata conf up ue =
+                 frame_from_conf L is_none is_float leaf_has registered known_dataset load_expdata conf' up ue).
 Proof. exact root_key_order. Qed.
 
 (* ---- time axis, including Time.__init__ ----------------------------------- *)
 (* `time_from_vect_linear` above stops before the constructor call at the end of Time.from_vect;
    Time.__init__ raises ValueError for step < 0, so that theorem describes the code only for
-   step >= 0.  time_of_vect includes the check: *)
+   step >= 0.  time_of_vect includes the check.
+   [repaired statements: time_of_vect answers a `time_outcome` - TimeAxis tm where it answered
+   Some tm, TimeRejected where it answered None - with the third outcome StepNaN t0 for the vector
+   [t0] of ONE stored sample, for which the library builds Time(t0, nan, 1) (the mean of no step is
+   nan, and nan < 0 is false) while the model used to answer None.  The three theorems below hold
+   as before, read with TimeAxis / TimeRejected; time_of_vect_one_sample and time_of_vect_by_length
+   are new] *)
 Theorem time_of_vect_linear : forall t0 step n, 2 <= n -> (0 <= step)%Q ->
-  exists t0' avg, time_of_vect (linspaceQ t0 step 0 n) = Some (t0', avg, n) /\
+  exists t0' avg, time_of_vect (linspaceQ t0 step 0 n) = TimeAxis (t0', avg, n) /\
                   (t0' == t0)%Q /\ (avg == step)%Q.
 Proof. exact time_of_vect_linspace. Qed.
 
 Theorem time_of_vect_decreasing_rejected : forall t0 step n, 2 <= n -> (step < 0)%Q ->
-  time_of_vect (linspaceQ t0 step 0 n) = None.
+  time_of_vect (linspaceQ t0 step 0 n) = TimeRejected.
 Proof. exact time_of_vect_decreasing. Qed.
 
-(* whatever vector is accepted (also within the 1 % tolerance): start = first stored sample
-   exactly, num = number of stored samples, step >= 0 *)
-Theorem time_of_vect_start_and_length : forall t t0 dt n, time_of_vect t = Some (t0, dt, n) ->
+(* whatever vector is accepted with a step that is a number (also within the 1 % tolerance):
+   start = first stored sample exactly, num = number of stored samples, step >= 0 *)
+Theorem time_of_vect_start_and_length : forall t t0 dt n, time_of_vect t = TimeAxis (t0, dt, n) ->
   n = List.length t /\ (0 <= dt)%Q /\ 2 <= n /\ exists rest, t = t0 :: rest.
 Proof. exact time_of_vect_sound. Qed.
+
+(* ONE stored sample gives Time(t0, nan, 1), and nothing else gives a step that is not a number *)
+Theorem time_of_vect_one_sample : forall t s, time_of_vect t = StepNaN s <-> t = [s].
+Proof. exact time_of_vect_nan_iff. Qed.
+
+(* the outcome by the number of stored samples: none -> rejected (IndexError), one -> step nan,
+   two or more -> a time axis with that many samples or a rejection *)
+Theorem time_of_vect_by_length : forall t,
+  match time_of_vect t with
+  | TimeAxis (_, _, n) => 2 <= List.length t /\ n = List.length t
+  | StepNaN _ => List.length t = 1
+  | TimeRejected => List.length t <> 1
+  end.
+Proof. exact time_of_vect_by_length. Qed.
 
 (* frame.instrument_delay: every sample time is shifted by the delay; step and number of
    samples unchanged; never rejected *)
@@ -579,25 +635,59 @@ Proof. exact shift_time_spec. Qed.
 
 (* ---- BRAIN loader: probe --------------------------------------------------- *)
 (* element i sits at (el_xc[i], el_yc[i], el_zc[i]) — unchanged, same order —, its dimensions come
-   from the corners of the SAME element on the same axis, frequency unchanged *)
+   from the corners of the SAME element on the same axis, frequency unchanged.
+   [repaired statement: numpy broadcasts a corner vector of ONE value against the n centres, and
+   the library accepts it (it also accepts n = 0, a probe without elements), while the model
+   demanded n >= 2 values in all nine vectors.  Hence `2 <= n` became `n <> 1`, and entry i of a
+   corner vector x1 is `bget x1 i` = nth i x1 0 unless x1 has exactly one value, which then serves
+   every element.  The statement as it was is brain_element_positions_full_vectors below] *)
 Theorem brain_element_positions : forall xc yc zc x1 y1 z1 x2 y2 z2 freq p,
   load_probe xc yc zc x1 y1 z1 x2 y2 z2 freq = Some p ->
   let n := List.length xc in
-  2 <= n /\ bp_frequency p = freq /\ bp_locations p = zip3 xc yc zc /\
+  n <> 1 /\ bp_frequency p = freq /\ bp_locations p = zip3 xc yc zc /\
   List.length (bp_locations p) = n /\ List.length (bp_dimensions p) = n /\
   forall i, i < n ->
     nth i (bp_locations p) (0, 0, 0)%Q = (nth i xc 0%Q, nth i yc 0%Q, nth i zc 0%Q) /\
     nth i (bp_dimensions p) (0, 0, 0)%Q =
+      (el_dim (nth i xc 0%Q) (bget x1 i) (bget x2 i),
+       el_dim (nth i yc 0%Q) (bget y1 i) (bget y2 i),
+       el_dim (nth i zc 0%Q) (bget z1 i) (bget z2 i)).
+Proof. exact load_probe_spec. Qed.
+
+(* the old statement: when the six corner vectors have as many values as there are elements,
+   the dimensions of element i come from entry i of each of them *)
+Theorem brain_element_positions_full_vectors : forall xc yc zc x1 y1 z1 x2 y2 z2 freq p,
+  load_probe xc yc zc x1 y1 z1 x2 y2 z2 freq = Some p ->
+  Forall (fun l => List.length l = List.length xc) [x1; y1; z1; x2; y2; z2] ->
+  forall i, i < List.length xc ->
+    nth i (bp_dimensions p) (0, 0, 0)%Q =
       (el_dim (nth i xc 0%Q) (nth i x1 0%Q) (nth i x2 0%Q),
        el_dim (nth i yc 0%Q) (nth i y1 0%Q) (nth i y2 0%Q),
        el_dim (nth i zc 0%Q) (nth i z1 0%Q) (nth i z2 0%Q)).
-Proof. exact load_probe_spec. Qed.
+Proof. exact load_probe_spec_full. Qed.
 
+(* [repaired statement: hypotheses relaxed from `2 <= n` and nine vectors of n values to what the
+   library accepts: n <> 1 centres, each corner vector of n values or of one] *)
 Theorem brain_probe_accepts : forall xc yc zc x1 y1 z1 x2 y2 z2 freq,
-  2 <= List.length xc ->
-  Forall (fun l => List.length l = List.length xc) [yc; zc; x1; y1; z1; x2; y2; z2] ->
+  List.length xc <> 1 ->
+  Forall (fun l => List.length l = List.length xc) [yc; zc] ->
+  Forall (fun l => List.length l = List.length xc \/ List.length l = 1) [x1; y1; z1; x2; y2; z2] ->
   exists p, load_probe xc yc zc x1 y1 z1 x2 y2 z2 freq = Some p.
 Proof. exact load_probe_accepts. Qed.
+
+(* ... and nothing else is accepted (new) *)
+Theorem brain_probe_accepts_iff : forall xc yc zc x1 y1 z1 x2 y2 z2 freq,
+  (exists p, load_probe xc yc zc x1 y1 z1 x2 y2 z2 freq = Some p) <->
+  List.length xc <> 1 /\
+  Forall (fun l => List.length l = List.length xc) [yc; zc] /\
+  Forall (fun l => List.length l = List.length xc \/ List.length l = 1) [x1; y1; z1; x2; y2; z2].
+Proof. exact load_probe_accepts_iff. Qed.
+
+(* a one-element array is rejected; the CENTRE vectors do not broadcast (new) *)
+Theorem brain_probe_centres_do_not_broadcast : forall xc yc zc x1 y1 z1 x2 y2 z2 freq,
+  List.length xc = 1 \/ List.length yc <> List.length xc \/ List.length zc <> List.length xc ->
+  load_probe xc yc zc x1 y1 z1 x2 y2 z2 freq = None.
+Proof. exact load_probe_one_centre_rejected. Qed.
 
 (* the stored corners of an element of width w centred on c give back w *)
 Theorem brain_dimension_centred : forall c w, (0 <= w)%Q ->
@@ -615,13 +705,15 @@ Theorem brain_dimension_is_twice_max : forall c a b,
 Proof. intros c a b. exact (conj (el_dim_bounds c a b) (el_dim_swap c a b)). Qed.
 
 (* ---- BRAIN loader: the whole frame ------------------------------------------ *)
-(* whatever is accepted is a well-formed frame holding the stored data *)
+(* whatever is accepted is a well-formed frame holding the stored data
+   [`Some (bf_time fr)` reads `TimeAxis (bf_time fr)` since the repair of time_of_vect; a time
+   vector of one sample (StepNaN) never makes a frame: Frame.__init__ rejects the squeezed data] *)
 Theorem brain_frame_sound : forall (V : Type) (A : arr2 V) (time : list Q) (tx rx : list Z)
     (fr : brain_frame V),
   load_frame V A time tx rx = Some fr ->
   bf_timetraces fr = load_timetraces V A /\
   bf_tx fr = load_indices tx /\ bf_rx fr = load_indices rx /\
-  time_of_vect time = Some (bf_time fr) /\
+  time_of_vect time = TimeAxis (bf_time fr) /\
   a_cols (bf_timetraces fr) = List.length time /\
   List.length (bf_tx fr) = a_rows (bf_timetraces fr) /\
   List.length (bf_rx fr) = a_rows (bf_timetraces fr) /\
@@ -736,7 +828,16 @@ Example conf_probe_example :
   /\ py_probe_from_conf [("probe_key", pyS "ima_50_MHz_128_1d"); ("probe_location", Map [("ref_element", pyS "mean")])] true
      = Ok (mkPlan (SrcLibrary (pyS "ima_50_MHz_128_1d")) [OpSetRef (pyS "mean"); OpToO])
   /\ py_probe_from_conf [("probe", Map [("numx", pyI 1)]); ("probe_location", Map [])] true = Err EType
-  /\ py_probe_from_conf [("probe_location", Map [])] true = Err EKey.
+  /\ py_probe_from_conf [("probe_location", Map [])] true = Err EKey
+  (* keys that are not in the probe library: KeyError; not hashable: TypeError (replayed) *)
+  /\ py_probe_from_conf [("probe_key", pyS "zzz")] false = Err EKey
+  /\ py_probe_from_conf [("probe_key", pyI 5)] false = Err EKey
+  /\ py_probe_from_conf [("probe_key", pyN); ("probe_location", Map [])] true = Err EKey
+  /\ py_probe_from_conf [("probe_key", Leaf (PyList [PyStr "ima_50_MHz_128_1d"]))] false = Err EType
+  /\ py_probe_from_conf [("probe_key", Map [("a", pyI 1)])] false = Err EType
+  /\ py_probe_from_conf [("probe_key", pyS "zzz"); ("probe", pr)] false = Err EAttr
+  /\ py_probe_from_conf [("probe_key", pyS "sonaxis_150_MHz_110_1d")] false
+     = Ok (mkPlan (SrcLibrary (pyS "sonaxis_150_MHz_110_1d")) []).
 Proof. vm_compute. repeat split; reflexivity. Qed.
 
 (* pixel_size [1.0, 3.0, 2.0] with ymax only: x gets 1.0, y gets 3.0 and (0.0, 6.0), z gets 2.0 *)
@@ -781,13 +882,23 @@ Example conf_frame_example :
 Proof. vm_compute. repeat split; reflexivity. Qed.
 
 (* two elements at x = 0, 1 with corners x-1/4, x+1/2 (dimension 2*1/2 = 1), y in [-4, 2]
-   (dimension 2*4 = 8), z flat; a one-element array is rejected *)
+   (dimension 2*4 = 8), z flat; a one-element array is rejected.  Three elements at x = 0, 1, 2 with
+   el_x1 = [1/2] (ONE value, broadcast): x dimensions 1, 1, 3; empty vectors: a probe without
+   elements; a CENTRE vector of one value among three: rejected; a corner vector of two values
+   among three: rejected (all replayed on the library) *)
 Example brain_probe_example :
-  option_map (fun p => (bp_locations p, map (fun t => let '(a, b, c) := t in (Qred a, Qred b, Qred c)) (bp_dimensions p), bp_frequency p))
-    (load_probe [0; 1] [0; 0] [0; 0] [-1 # 4; 3 # 4] [-4; -4] [0; 0] [1 # 2; 3 # 2] [2; 2] [0; 0] 5000000)%Q
+  let show := option_map (fun p => (bp_locations p, map (fun t => let '(a, b, c) := t in (Qred a, Qred b, Qred c)) (bp_dimensions p), bp_frequency p)) in
+  show (load_probe [0; 1] [0; 0] [0; 0] [-1 # 4; 3 # 4] [-4; -4] [0; 0] [1 # 2; 3 # 2] [2; 2] [0; 0] 5000000)%Q
   = Some ([(0, 0, 0); (1, 0, 0)], [(1, 8, 0); (1, 8, 0)], 5000000)%Q
-  /\ (load_probe [0] [0] [0] [0] [0] [0] [0] [0] [0] 1)%Q = None.
-Proof. vm_compute. split; reflexivity. Qed.
+  /\ (load_probe [0] [0] [0] [0] [0] [0] [0] [0] [0] 1)%Q = None
+  /\ show (load_probe [0; 1; 2] [0; 0; 0] [0; 0; 0] [1 # 2] [-4; -4; -4] [0; 0; 0] [1 # 2; 3 # 2; 5 # 2] [2; 2; 2] [0; 0; 0] 5000000)%Q
+     = Some ([(0, 0, 0); (1, 0, 0); (2, 0, 0)], [(1, 8, 0); (1, 8, 0); (3, 8, 0)], 5000000)%Q
+  /\ show (load_probe [0; 1; 2] [0; 0; 0] [0; 0; 0] [1 # 2] [-4] [0] [1] [2] [0] 5000000)%Q
+     = Some ([(0, 0, 0); (1, 0, 0); (2, 0, 0)], [(2, 8, 0); (1, 8, 0); (3, 8, 0)], 5000000)%Q
+  /\ show (load_probe [] [] [] [] [1] [] [] [] [2] 5000000)%Q = Some ([], [], 5000000%Q)
+  /\ (load_probe [0; 1; 2] [0] [0; 0; 0] [0; 1; 2] [0; 0; 0] [0; 0; 0] [0; 1; 2] [0; 0; 0] [0; 0; 0] 1)%Q = None
+  /\ (load_probe [0; 1; 2] [0; 0; 0] [0; 0; 0] [0; 1] [0; 0; 0] [0; 0; 0] [0; 1; 2] [0; 0; 0] [0; 0; 0] 1)%Q = None.
+Proof. vm_compute. repeat split; reflexivity. Qed.
 
 (* 4 timetraces of 3 samples (2-element FMC) through scipy; and the rejections: a repeated
    (tx, rx) pair, a short tx, a decreasing time vector, a time vector of another length,
@@ -805,14 +916,23 @@ Example brain_frame_example :
   /\ load_frame Z (view_scipy Z 4 3 mem) [5; 11 # 2; 6]%Q [1; 1; 2] [1; 2; 1] = None
   /\ load_frame Z (view_scipy Z 4 3 mem) [3; 2; 1]%Q [1; 1; 2; 2] [1; 2; 1; 2] = None
   /\ load_frame Z (view_scipy Z 4 3 mem) [3; 2; 1; 0]%Q [1; 1; 2; 2] [1; 2; 1; 2] = None
-  /\ load_frame Z (view_scipy Z 1 3 [0; 1; 2]) [5; 11 # 2; 6]%Q [1] [1] = None.
+  /\ load_frame Z (view_scipy Z 1 3 [0; 1; 2]) [5; 11 # 2; 6]%Q [1] [1] = None
+  (* one stored sample: Time(5, nan, 1) is built, the frame is rejected all the same *)
+  /\ load_frame Z (view_scipy Z 4 1 [0; 1; 2; 3]) [5]%Q [1; 1; 2; 2] [1; 2; 1; 2] = None
+  /\ load_frame Z (view_scipy Z 4 3 mem) [5]%Q [1; 1; 2; 2] [1; 2; 1; 2] = None.
 Proof. vm_compute. repeat split; reflexivity. Qed.
 
-(* decreasing vector rejected, constant vector accepted with step 0, delay 2 on (5, 1/2, 3) *)
+(* decreasing vector rejected, constant vector accepted with step 0, delay 2 on (5, 1/2, 3);
+   one stored sample: Time(3, nan, 1); no sample: rejected (replayed on the library) *)
 Example time_of_vect_example :
-  time_of_vect [3; 2; 1]%Q = None
-  /\ option_map (fun t => let '(a, b, n) := t in (Qred a, Qred b, n)) (time_of_vect [3; 3; 3]%Q) = Some (3, 0, 3%nat)%Q
+  let show := fun o => match o with
+                       | TimeAxis (a, b, n) => TimeAxis (Qred a, Qred b, n)
+                       | o' => o' end in
+  time_of_vect [3; 2; 1]%Q = TimeRejected
+  /\ show (time_of_vect [3; 3; 3]%Q) = TimeAxis (3, 0, 3%nat)%Q
   /\ match time_of_vect [5; 11 # 2; 6]%Q with
-     | Some t => option_map (fun t => let '(a, b, n) := t in (Qred a, Qred b, n)) (shift_time t 2%Q)
-     | None => None end = Some (3, 1 # 2, 3%nat)%Q.
+     | TimeAxis t => option_map (fun t => let '(a, b, n) := t in (Qred a, Qred b, n)) (shift_time t 2%Q)
+     | _ => None end = Some (3, 1 # 2, 3%nat)%Q
+  /\ time_of_vect [3]%Q = StepNaN 3%Q
+  /\ time_of_vect [] = TimeRejected.
 Proof. vm_compute. repeat split; reflexivity. Qed.
